@@ -375,7 +375,7 @@ def bisect_death(prop, tier, seed, binary, first):
             open(dest, "w").write("# the simulator process is killed (abort / segfault) while executing runs 0..=%d of this batch in ONE worker;\n"
                                   "# no single run of them does it alone (memory corrupted in one run, touched in a later one). Replay:\n"
                                   "#   %s batch --prop %s --tier %s --seed %d --workers 1 --from 0 --to %d   (must be killed by a signal)\n"
-                                  "prop=%s\ntier=%s\nseed=%d\nfrom=0\nto=%d\nexpect=%s\n" % (culprit, binary, prop, tier, seed, culprit + 1, prop, tier, seed, culprit + 1, sig))
+                                  "binary=%s\nprop=%s\ntier=%s\nseed=%d\nfrom=0\nto=%d\nexpect=%s\n" % (culprit, binary, prop, tier, seed, culprit + 1, binary, prop, tier, seed, culprit + 1, sig))
             lines = ["VIOLATION property=%s replay=%s" % (prop, dest),
                      "  signature=%s detail=runs 0..=%d kill a single-worker simulator process (exit %s): memory corruption / undefined behaviour reached from safe calls" % (sig, culprit, first.returncode)]
             res = dict(runs=culprit + 1, distinct_nontrivial=2, samples=[g.stdout], nontrivial_runs=culprit + 1, wall_batch_s=1.0, sim_seconds=0.0,
@@ -1082,6 +1082,26 @@ def main():
             print("VIOLATION property=%s replay=%s" % (prop, replay))
             sys.exit(1)
         sys.exit(0)
+    if replay and replay.endswith(".range"):
+        # a single-worker batch over a range of runs that was killed by a signal: it must be killed again
+        kv = dict(l.strip().split("=", 1) for l in open(replay) if "=" in l and not l.startswith("#"))
+        build_main()
+        m = _re.search(r"/variants/([a-z_]+)/release/", kv.get("binary", ""))
+        binary = variant_binary(m.group(1)) if m else BIN
+        r = run([binary, "batch", "--prop", kv["prop"], "--tier", kv["tier"], "--seed", kv["seed"], "--workers", "1",
+                 "--from", kv["from"], "--to", kv["to"], "--out", "/dev/null", "--replay-dir", os.path.join(REPLAYS, "tmp")])
+        if dies(r.returncode):
+            print("VIOLATION property=%s replay=%s" % (prop, replay))
+            sys.exit(1)
+        sys.exit(0)
+    if replay and replay.endswith(".probe") and os.path.basename(replay).startswith("safe-route-"):
+        pname = os.path.basename(replay)[len("safe-route-"):-len(".probe")]
+        pr = run(["cargo", "build", "--release", "--offline", "--bin", pname], cwd=os.path.join(VERIF, "callers", "safe_route_probes"), timeout=1800)
+        print(pr.stdout[-1500:])
+        if pr.returncode == 0:
+            print("VIOLATION property=%s replay=%s" % (prop, replay))
+            sys.exit(1)
+        sys.exit(0)
     if replay and replay.endswith(".probe"):
         pr = run(["cargo", "build", "--release", "--offline"], cwd=os.path.join(VERIF, "callers", "unsafe_probe"), timeout=1800)
         print(pr.stdout[-1500:])
@@ -1109,7 +1129,15 @@ def main():
         sys.exit(0)
     if replay:
         build_main()
-        ok, text = replay_reproduces(replay)
+        # a plan found by one of the other simulators names that simulator in its first line
+        head = open(replay).readline()
+        m = _re.search(r"/verif/target/variants/([a-z_]+)/release/rrtk-sim-", head)
+        if m:
+            vb = variant_binary(m.group(1))
+            r = run([vb, "replay", replay])
+            ok, text = r.returncode == 1, r.stdout
+        else:
+            ok, text = replay_reproduces(replay)
         print(text)
         if ok:
             print("VIOLATION property=%s replay=%s" % (prop, replay))
